@@ -6,3 +6,15 @@ package http2
 
 func verifPoolGet(kind uint8, obj interface{}) {}
 func verifPoolPut(kind uint8, obj interface{}) {}
+
+const (
+	verifTickReadLoop = iota
+	verifTickForwarded
+	verifTickStreamLoop
+	verifTickHandlerDone
+	verifTickQueued
+	verifTickWritten
+)
+
+func verifTick(which int)                    {}
+func verifGauge(strms, open, closedRing int) {}
